@@ -106,6 +106,7 @@ class World:
         if self.state.bottom or not isinstance(ptr, Ptr):
             raise AnalysisError(f"abstract construction of {self.roles.model.name} failed")
         c = self.state.heap[ptr.loc]
+        self.ctor_fields = set(c.obj.names())
         self.state.heap[ptr.loc] = replace(c, origin="input:model")
         # containers created by the constructor and held by the model are model state too
         work = [v for _, v in c.obj.fields]
